@@ -28,18 +28,18 @@ CLAIMED = {
     "C07": ("snp and raw counts are proved equal to the column counts of the statement for every pair of valid sequences (from the finite table sweeps), with symmetry, n<=d, and zero on identical unambiguous sequences; the tn93 column classes (differences, purine/pyrimidine transitions, compared sites) are proved to be the named ones; eq. (7) is written over R (TN93Spec.v, zero on identical proved). raw is modelled bit-exactly (SpecFloat division, exact 'f',9 formatting). Correspondence: complete 32x32 symbol grid + random pairs through closest --table (bytes) and the float values of the three Go distance functions (bit-exact vs spec for raw/snp; per-pair kernel-checked interval enclosure at 1e-12 for tn93).",
             "Coq proof (induction over columns + table sweeps; SpecFloat model) + correspondence check; tn93 value: certified interval enclosure per sampled pair (partial)",
             "PARTIAL for tn93: the float evaluation of eq. (7) (math.Log, rounding) is not modelled; sampled pairs are certified individually with coq-interval, which depends on the standard library's real-number axioms (ClassicalDedekindReals.sig_forall_dec, sig_not_dec, functional_extensionality_dep, Classical_Prop.classic).", "5 C07"),
-    "C01": ("Proved for every CIGAR/POS/reference length: the row built from a record has the reference length and at every reference position holds the cell a two-counter walk of the CIGAR assigns (one_line_cell); per-column flattening gives 'N' for two different bases and otherwise the greatest of base > '-' > '*'; the flank/internal rewrite and the --pad rewrite are characterised position-wise; records with 0x4/0x100 never contribute wherever they sit. The whole command (grouping, flattening, rewrite, window, wrap, writers) is a Coq model compared byte for byte with sam.ToMultiAlign, and the implementation's bytes are also compared with an oracle written from the statement.",
+    "C01": ("Proved for every CIGAR/POS/reference length: the row built from a record has the reference length and at every reference position holds the cell a two-counter walk of the CIGAR assigns (one_line_cell); per-column flattening gives 'N' for two different bases and otherwise the greatest of base > '-' > '*'; the flank/internal rewrite and the --pad rewrite are characterised position-wise; records with 0x4/0x100 never contribute wherever they sit; composed: the row of a block before the rewrite is, at every reference position, the flattening of the cells its records' CIGARs align there. The whole command (grouping, flattening, rewrite, window, wrap, writers) is a Coq model compared byte for byte with sam.ToMultiAlign, and the implementation's bytes are also compared with an oracle written from the statement.",
             "Coq proof (induction over CIGAR operators and columns) + correspondence check + statement-level oracle",
-            "SAM text parsing (biogo/hts) is trusted; block = consecutive records of one name. The composition of the per-stage theorems into one whole-command theorem is not yet proved: the whole command is tied by the correspondence check and the oracle.", "5 C01"),
-    "C04": ("PARTIAL proof: the reference-to-alignment coordinate map sends position p to its own (non-gap) column for every gapped reference row; every reference position is in a reported region or in the intergenic list and never both; intergenic positions get a nuc: record iff the encoded symbols test disjoint. The per-codon aa/nuc decision, merge, stable sort and dedupe are an executable Coq model compared byte for byte with variants.Variants, and every row of the implementation's output is checked against an oracle written from the statement (mentioned positions = disjoint positions under --append-snps; aa records = codons whose query translation is unambiguous and differs, by the standard code, strand and joins included).",
-            "Coq proof (partial: coordinate map, partition, intergenic rule) + correspondence check + statement-level oracle",
-            "PARTIAL: no theorem yet for the codon loop / merge / dedupe (nuc_mentions_complete, aa_sound, aa_complete of DESIGN.md are decided by the oracle and the differential run only). Regions are taken from the implementation's parsers (C14).", "5 C04"),
+            "SAM text parsing (biogo/hts) is trusted; block = consecutive records of one name. Window, wrap and writer stages are composed only in the executable model (tied by the correspondence check and the oracle).", "5 C01"),
+    "C04": ("Proved (model carries, next to every emitted record, the reference positions it mentions): the coordinate map sends position p to its own non-gap column; every position is in a reported region or in the intergenic list, never both; intergenic nuc: records iff the symbols test disjoint; the codon loop of a region (any strand/joins, length multiple of 3) mentions EXACTLY the region's positions whose symbols test disjoint (invariant over the fold); the merged list mentions p iff p is a reference position whose symbols test disjoint; after the stable sort and duplicate removal nothing is invented (soundness) and nothing is dropped (completeness, under the visible side condition that no two aa: records of the sorted list are equal - true for distinct feature names). The aa: decision itself (R/Q are the translations) is decided by the byte-for-byte correspondence with variants.Variants and by an oracle written from the statement that checks every row of the implementation's output against the standard code, strands and joins.",
+            "Coq proof (fold invariant over the codon loop, partition, sort/dedupe lemmas) + correspondence check + statement-level oracle",
+            "PARTIAL: aa_sound / aa_complete (the named amino acids are the true translations) have no theorem; the side condition of completeness (aa_uniq of the sorted list) is assumed, not derived from distinct feature names. Regions are taken from the implementation's parsers (C14).", "5 C04"),
     "C05": ("Proved for every pair of rows: the code's scan (alignment positions + the MSAToRef offset table that is 0 at reference-gap columns) equals the reference-coordinate machine indels_ref (insertion at P = reference bases to its left; deletion at 1 + reference bases to its left; one record per maximal run; start- and end-abutting deletions dropped), and the reported list is invariant under insertion of columns that are gaps in both rows. Correspondence: variants.Variants on indel-rich alignments, each also run with random double-gap columns added (outputs must be identical), every row checked against ins/del lists computed from the statement, Coq model byte for byte.",
             "Coq proof (simulation between the alignment-coordinate and reference-coordinate machines) + correspondence check + metamorphic companion + statement-level oracle",
             "FASTA-MSA form here; the SAM form goes through C11.", "5 C05"),
     "C13": ("Proved for any key type with a deciding equality: the counting association list of the aggregators gives each key the total number of its occurrences over the per-sequence lists, which for duplicate-free lists is the number of sequences whose per-sequence output contains it; each distinct key is listed once; for snps the per-sequence lists are duplicate-free, the counter is the generic one and the output is sorted by (position, allele). Frequencies and the threshold test are modelled bit-exactly (SpecFloat division, exact 'f',9 formatting). Correspondence: snps and variants in per-sequence and --aggregate mode on the same input with thresholds at and just above occurring frequencies; the oracle recounts from the implementation's own per-sequence output; Coq models of both aggregators byte for byte.",
             "Coq proof (counting fold invariant, generic in the key) + SpecFloat model + correspondence check + recount oracle",
-            "sam variants --aggregate shares AggregateWriteVariants with variants; the instantiation of the generic counter for the variants key (akey_eqb reflects equality) is not yet proved.", "5 C13"),
+            "sam variants --aggregate shares AggregateWriteVariants with variants;", "5 C13"),
     "C14": ("Proved for every feature AST (strand, any number of segments, codon_start): the ordered position list derived on the GenBank path, for complement(join(..)) and for join(complement(..),..), equals the one derived on the GFF3 path from the equivalent rows. Correspondence: one AST rendered both ways, parsed by the real code; regions compared field by field (name, strand, positions, translation) with the AST-level Coq model; variants run with each rendering on the same alignment must list the same mutations; each output byte for byte against the Coq caller model and against the statement-level oracle.",
             "Coq proof (AST-level position lists) + correspondence check over both renderings",
             "The text parsers (FEATURES/ORIGIN, GFF rows, location strings) are modelled at AST level only and exercised by rendering and re-parsing.", "5 C14"),
